@@ -329,6 +329,8 @@ func c08Run(c *core.Ctx) {
 			}
 		}
 	}
+	mu := 0
+	n += cryptoMixRun(c, func() bool { mu++; return c.Mine(mu) })
 	c.Add("evaluations", n)
 	if c.Shard == 0 {
 		c.Sample("case", 1, func() any {
